@@ -2,6 +2,7 @@
 
 from __future__ import annotations
 
+import fnmatch
 import hashlib
 import json
 import multiprocessing as mp
@@ -221,7 +222,9 @@ def finish(prop, tier, seed, level, res: Result, errors, t0, rule, assumptions, 
     for v in res.violations:
         hit = None
         for kp, ks, what in known:
-            if kp == v.prop and ks == v.sig:
+            # a finding names one defect by a signature; `*` stands for the site kinds /
+            # outer constructs through which the same call site is reached
+            if kp == v.prop and (ks == v.sig or ("*" in ks and fnmatch.fnmatchcase(v.sig, ks))):
                 hit = (kp, ks, what)
         if hit:
             known_hit.setdefault(hit, v)
